@@ -1,6 +1,7 @@
 import FordModel.Proto
 import FordModel.Links
 import FordModel.LinkSyntax
+import FordModel.LinkWarn
 namespace Ford
 open Proto Links
 
@@ -41,6 +42,10 @@ def entOf (fs : List Str) : Ent :=
     { name := name, parent := optNat parent, extUrl := if ext == ['1'] then some url else none,
       chain := (nonEmpty (splitOn ';' chain)).map ancOf,
       attrs := (nonEmpty (splitOn ';' attrs)).map attrOf }
+  | [name, parent, ext, url, chain, attrs, filename] =>
+    { name := name, parent := optNat parent, extUrl := if ext == ['1'] then some url else none,
+      chain := (nonEmpty (splitOn ';' chain)).map ancOf,
+      attrs := (nonEmpty (splitOn ';' attrs)).map attrOf, filename := filename }
   | _ => default
 
 def pathOf (s : Str) : Path := nonEmpty (splitOn '/' s)
@@ -72,11 +77,16 @@ def showTarget (P : Project) (q : Query) : Str :=
   | .ok (some id) => showNat id
   | _ => []
 
+/-- round 6: the messages handed to `warn` during the conversion, after the marker `#W` -/
+def showWarns (env : Env) (P : Project) (q : Query) (ws : List Warn) : Str :=
+  joinSep '|' ("#W".toList :: ws.map (Warn.message env P q.ctx q.path))
+
 def answerRef (env : Env) (P : Project) (q : Query) : Str :=
-  match convertLink env P q.ctx q.path q.ref with
-  | .link t h => joinSep '|' ["L".toList, t, h, showTarget P q]
-  | .text t => joinSep '|' ["T".toList, t]
-  | .err e => joinSep '|' ["X".toList, errName e]
+  let (o, ws) := convertLinkW env P q.ctx q.path q.ref
+  (match o with
+   | .link t h => joinSep '|' ["L".toList, t, h, showTarget P q]
+   | .text t => joinSep '|' ["T".toList, t]
+   | .err e => joinSep '|' ["X".toList, errName e]) ++ '|' :: showWarns env P q ws
 
 /-- `T|ctx|path|text` -/
 def textQueryOf (cwd : Path) (fs : List Str) : Query :=
@@ -93,9 +103,10 @@ def showSeg : OutSeg → Str
 
 /-- answer to a `T` query: `S|seg|seg|...` or `X|error` -/
 def answerText (env : Env) (P : Project) (q : Query) (t : Str) : Str :=
-  match convertText linkCfg env P q.ctx q.path t with
-  | .ok segs => joinSep '|' (['S'] :: segs.map showSeg)
-  | .error e => joinSep '|' [['X'], errName e]
+  let (o, ws) := convertTextW linkCfg env P q.ctx q.path t
+  (match o with
+   | .ok segs => joinSep '|' (['S'] :: segs.map showSeg)
+   | .error e => joinSep '|' [['X'], errName e]) ++ '|' :: showWarns env P q ws
 
 def showRef (r : Ref) : Str :=
   joinSep ';' [r.name, (r.kind.map (fun k => '+' :: k)).getD [], (r.child.map (fun k => '+' :: k)).getD [],
@@ -113,7 +124,7 @@ def answer (env : Env) (P : Project) (q : Query) : Str :=
   | none =>
     match segments linkCfg q.ref.render with
     | [.ref r] => answerRef env P { q with ref := r }
-    | _ => ['V']
+    | _ => "V|#W".toList
 
 structure Acc where
   ents : List Ent := []
